@@ -6,6 +6,7 @@ import (
 	"fmt"
 	"math/rand"
 	"os"
+	"time"
 
 	txfile "github.com/elastic/go-txfile"
 
@@ -26,13 +27,13 @@ import (
 //     fed to the model (readmeta_win).
 
 type c16Replay struct {
-	Config  engine.Config `json:"config"`
-	Ops     []engine.Op   `json:"ops,omitempty"`
-	Damage  string        `json:"damage"`
-	Image   string        `json:"image_hex,omitempty"` // header pages for K1 cases
-	Expect  string        `json:"expect"`
-	Actual  string        `json:"actual"`
-	HistSeed int64        `json:"hist_seed,omitempty"`
+	Config   engine.Config `json:"config"`
+	Ops      []engine.Op   `json:"ops,omitempty"`
+	Damage   string        `json:"damage"`
+	Image    string        `json:"image_hex,omitempty"` // header pages for K1 cases
+	Expect   string        `json:"expect"`
+	Actual   string        `json:"actual"`
+	HistSeed int64         `json:"hist_seed,omitempty"`
 }
 
 func init() { register("c16", runC16) }
@@ -425,7 +426,11 @@ func c16History(rep *Report, m *model.Client, cfg engine.Config, ops []engine.Op
 					Replay: c16Replay{Config: cfg, Ops: ops, HistSeed: hseed, Damage: dc.name, Expect: "invalid", Actual: "valid"}})
 			}
 		}
-		actual := c16Open(cfg, dimg, want, expect)
+		var actual string
+		rep.guard(30*time.Second, Violation{Kind: "oracle", Sig: "open-after-damage/" + kind + "/hang",
+			Detail: fmt.Sprintf("%s on %s: Open (or the first transaction after it) does not return", dc.name, cfg),
+			Replay: c16Replay{Config: cfg, Ops: ops, HistSeed: hseed, Damage: dc.name, Expect: expect, Actual: "hang"}},
+			func() { actual = c16Open(cfg, dimg, want, expect) })
 		outcome := firstSeg(actual)
 		rep.nontrivial(fmt.Sprintf("B/%s/%s/newest%d", dc.name, outcome, newest))
 		if rep.Evaluations%997 == 0 {
